@@ -25,6 +25,8 @@ type Ctx struct {
 	reachMem map[string]map[*ssa.Function][]*ssa.Function
 
 	Notes []string
+
+	tlg *TLG
 }
 
 func NewCtx(p *core.Prog) *Ctx {
